@@ -9,6 +9,7 @@ package c18rdma
 
 import (
 	"bytes"
+	"encoding/json"
 	"fmt"
 	"sort"
 
@@ -301,6 +302,23 @@ func Run(rec vlib.Recorder, rng *vlib.PRNG, scenarios int) {
 		scs[i] = gen(rng.ForkN("s", i), i)
 	}
 	vlib.Parallel(len(scs), 0, func(i int) { RunScenario(rec, scs[i]) })
+}
+
+// Replay re-executes the RDMA scenario stored in a replay file (its bytes,
+// read before vlib.Start removes stale replays); it returns false if the
+// file holds no RDMA scenario.
+func Replay(rec vlib.Recorder, b []byte) bool {
+	var f struct {
+		Witness struct {
+			Part     string   `json:"part"`
+			Scenario Scenario `json:"scenario"`
+		} `json:"witness"`
+	}
+	if json.Unmarshal(b, &f) != nil || f.Witness.Part != "rdma" {
+		return false
+	}
+	RunScenario(rec, f.Witness.Scenario)
+	return true
 }
 
 // MinCounters are the evidence minimums of this part for a quick run.
